@@ -143,7 +143,8 @@ Inductive call :=
 | CAffix (g parent : nat)
 | CProtect (g : nat) (p : prot)
 | CRewrite (g : nat)
-| CRenameUpdb (g : nat) (users : list nat).   (* gd_rename(.., GD_REN_UPDB) of a field of g used by fields of `users` *)
+| CRenameUpdb (g : nat) (users : list nat)
+| CSeekWrite (f : field).     (* gd_seek(.., GD_SEEK_WRITE): creates / opens for writing the RAW leaf's data file *)   (* gd_rename(.., GD_REN_UPDB) of a field of g used by fields of `users` *)
 
 Fixpoint bump (l : list nat) (g : nat) : list nat :=
   match l, g with
@@ -170,6 +171,9 @@ Section Exec.
   (* whether gd_rename with GD_REN_UPDB tests the protection of the fragments whose fields it rewrites
      (it does not on the frozen tree: recorded finding, fixed by hand here when that changes) *)
   Variable updb_guarded : bool.
+  (* whether a write-mode gd_seek tests the access mode (it does not: open finding, the repository's own tests
+     rely on it) *)
+  Variable seekw_guarded : bool.
 
   Definition exec (s : st) (c : call) : result * st :=
     match c with
@@ -231,6 +235,12 @@ Section Exec.
       else if p_fmt (prot_of s g) then (RProtected, s)
       else if updb_guarded && existsb (fun u => p_fmt (prot_of s u)) users then (RProtected, s)
       else (ROk, mkSt (rw s) (prots s) (bump_all (bump (meta s) g) users) (data s))
+    | CSeekWrite f =>
+      if seekw_guarded && negb (rw s) then (RAccMode, s)
+      else match put_leaf f with
+           | None => (ROther, s)
+           | Some g => if p_dat (prot_of s g) then (RProtected, s) else (ROk, bump_data s g)
+           end
     | CRewrite g =>
       (* gd_rewrite_fragment writes the same metadata out again: no semantic change, no protection test *)
       if negb (rw s) then (RAccMode, s)
@@ -247,4 +257,7 @@ Definition gen_affix_guarded : bool := f_acc "gd_alter_affixes" && f_fmt "gd_alt
 Definition is_updb_call (c : call) : bool := match c with CRenameUpdb _ _ => true | _ => false end.
 (* hand-set: src/name.c has no protection test in the update pass of _GD_PrepareRename (open finding) *)
 Definition gen_updb_guarded : bool := false.
-Definition gen_exec := exec gen_affix_guarded gen_updb_guarded.
+Definition is_seekw_call (c : call) : bool := match c with CSeekWrite _ => true | _ => false end.
+(* hand-set: neither iopos.c nor _GD_InitRawIO tests GD_ACCMODE on the write-mode seek path (open finding) *)
+Definition gen_seekw_guarded : bool := false.
+Definition gen_exec := exec gen_affix_guarded gen_updb_guarded gen_seekw_guarded.
